@@ -20,6 +20,12 @@ def spread(insts, per_shape=1, cap=None, offset=0):
     return pick[:cap] if cap else pick
 
 
+def weight(inst):
+    """an estimate of the size of an instance's state space (variables without initial value multiply it)"""
+    free = sum(1 for x in inst["vars"] if not (inst.get("init") or {}).get(x))
+    return (2 ** free) * (4 ** len(inst["cons"])) * len(inst["vars"])
+
+
 def with_vrank(inst):
     """rank of every concrete domain value in Python's order (optimal_cost_value breaks ties on the value itself)"""
     _, doms = build_dcop(inst)
@@ -355,6 +361,18 @@ def run_model(v, b, insts, consts, invariants, clauses, props, edges_for=lambda 
               timeout=900, key_base=None, procs=8, intensify=20, explore_states=6000, explore_budget=120, widen=None):
     """model-check + replay every instance; a violated model invariant is replayed on the real computations and judged"""
     import multiprocessing as mp
+    flags = [bool(edges_for(i)) for i in insts]
+    if any(flags) and not all(flags):
+        # the larger instances are model-checked only (all workers on the invariants), the others also replayed on the real code
+        kw = dict(workers=workers, max_paths=max_paths, timeout=timeout, key_base=key_base, procs=procs, intensify=intensify,
+                  explore_states=explore_states, explore_budget=explore_budget, widen=widen)
+        t1 = run_model(v, b, [i for i, f in zip(insts, flags) if f], consts, invariants, clauses, props, edges_for=lambda i: True, **kw)
+        kw["workers"] = 4
+        t2 = run_model(v, b, [i for i, f in zip(insts, flags) if not f], consts, invariants, clauses, props, edges_for=lambda i: False, **kw)
+        for k, x in t2.items():
+            t1[k] = x if isinstance(x, dict) else (t1.get(k, 0) + x) if not isinstance(x, bool) else (t1.get(k, True) and x)
+        t1["model_checked_only_instances"] = t2["instances"]
+        return t1
     rnd = random.Random(vseed() + 77)
     insts = [with_vrank(i) for i in insts]
     labels = ["%s[%s]#%d" % (i.get("shape", "?"), i["mode"], k) for k, i in enumerate(insts)]
